@@ -438,4 +438,28 @@ def dimacs_sign(prog):
         if not (match(K(0), arms.get("Neg", ())) is None and match(K(1), arms.get("Pos", ())) is None):
             e = "Sign::Neg must map to false and Sign::Pos to true, found %s" % show(x)
         out.append(inst("DP", fn.npath + ":sign", VIOLATION if e else OK, fn, None, e or "Neg ↦ false, Pos ↦ true"))
+    # the printer is the inverse of the parser: a negative literal gets the minus sign, the number is label + 1
+    fn = prog.find1(name="to_dimacs", self_adt="repr::cnf::Cnf", unit="rsdd-lib")
+    te = fn.terms
+    signs, nums = [], []
+    for cs in te.calls:
+        for a in cs.args:
+            for x in mir.subterms(a):
+                if x[0] == "gamma" and mir.is_call(strip(x[1]), "polarity") and all(strip(v)[0] == "const" and strip(v)[1] == "&str" for _, v in x[2]):
+                    signs.append(x)
+                if x[0] == "bin" and x[1] in ("Add", "AddWithOverflow", "Sub", "SubWithOverflow") and "label(" in show(x[2]) and strip(x[3])[0] == "const":
+                    nums.append(x)
+    errs = []
+    if not signs:
+        errs.append("no sign text chosen by the literal's polarity")
+    else:
+        arms = {("F" if lab == "0" else "T"): strip(v)[2].strip('"') for lab, v in signs[0][2]}
+        if arms.get("F") != "-" or arms.get("T", "") not in ("", "+"):
+            errs.append("a negative literal is printed with sign %r and a positive one with %r" % (arms.get("F"), arms.get("T")))
+    if not nums:
+        errs.append("the printed number is not label + 1")
+    elif not (nums[0][1].startswith("Add") and strip(nums[0][3])[2] == "1"):
+        errs.append("the printed number is %s, expected label + 1 (DIMACS variables start at 1)" % show(nums[0])[:50])
+    out.append(inst("DP", fn.npath + ":sign-and-number", VIOLATION if errs else OK, fn, None,
+                    "; ".join(errs) if errs else "prints '-' for a negative literal and label + 1"))
     return out
